@@ -6,6 +6,7 @@ import (
 	"strings"
 	"testing"
 	"testing/synctest"
+	"time"
 )
 
 // bubbleResult says how a bubble ended.
@@ -17,11 +18,58 @@ type bubbleResult struct {
 	// Panic is a panic raised by f itself in the root goroutine.
 	Panic string
 	Stack string
+	// Spin: a client goroutine was still running (never blocking) after a generous amount of
+	// real time. Frozen: the bubble made no progress for another reason (infrastructure).
+	Spin   string
+	Frozen string
 }
 
 // inBubble runs f inside a fresh synctest bubble (virtual time) and turns
 // synctest's deadlock panic into a value. f must not touch *rapid.T.
 func inBubble(t *testing.T, f func()) (res bubbleResult) {
+	// Real-time watchdog (we are outside the bubble here): a goroutine of the client that
+	// spins without ever blocking keeps the bubble from becoming idle, so neither
+	// synctest.Wait nor the fake clock would ever get us out.
+	done := make(chan bubbleResult, 1)
+	go func() { done <- inBubbleUnguarded(t, f) }()
+	limit := 40 * time.Second
+	select {
+	case r := <-done:
+		return r
+	case <-time.After(limit):
+	}
+	buf := make([]byte, 4<<20)
+	dump := string(buf[:runtime.Stack(buf, true)])
+	var spinning, mutexed []string
+	for _, g := range strings.Split(dump, "\n\n") {
+		if !strings.Contains(g, "synctest bubble") {
+			continue
+		}
+		head := g
+		if i := strings.Index(g, "\n"); i > 0 {
+			head = g[:i]
+		}
+		switch {
+		case (strings.Contains(head, "[running") || strings.Contains(head, "[runnable")) && strings.Contains(g, "github.com/tsuna/gohbase"):
+			spinning = append(spinning, g)
+		case strings.Contains(head, "sync.Mutex.Lock") || strings.Contains(head, "sync.RWMutex"):
+			mutexed = append(mutexed, g)
+		}
+	}
+	switch {
+	case len(spinning) > 0:
+		g := spinning[0]
+		if len(g) > 2500 {
+			g = g[:2500]
+		}
+		return bubbleResult{Spin: fmt.Sprintf("after %v of real time a goroutine of the client is still running without blocking (hot loop):\n%s", limit, g)}
+	case len(mutexed) > 0:
+		return bubbleResult{Frozen: "the bubble's clock is frozen by a goroutine parked on a mutex (harness limitation):\n" + mutexed[0]}
+	}
+	return bubbleResult{Frozen: "the bubble did not finish within " + limit.String() + " of real time"}
+}
+
+func inBubbleUnguarded(t *testing.T, f func()) (res bubbleResult) {
 	defer func() {
 		if p := recover(); p != nil {
 			msg := fmt.Sprint(p)
@@ -87,4 +135,16 @@ func bubbleStacks(dump string) string {
 		out = out[:12]
 	}
 	return strings.Join(out, "\n\n")
+}
+
+// stuckVerdict turns a bubble that did not finish in real time into an outcome: a
+// spinning client goroutine is a violation (hot loop), anything else is infrastructure.
+func stuckVerdict(res bubbleResult) (Outcome, bool) {
+	if res.Spin != "" {
+		return viol("client-spin@"+topFrame(res.Spin), "%s", res.Spin), true
+	}
+	if res.Frozen != "" {
+		return viol("bubble-frozen", "%s", res.Frozen), true
+	}
+	return Outcome{}, false
 }
